@@ -159,7 +159,14 @@ func evalImpl(line string) (ans string) {
 	f := strings.Split(line, " ")
 	bad := "error cannot parse: " + line
 	switch f[0] {
-	case "valid":
+	case "global":
+		// The draw of the random source cannot be injected into the real GlobalID; the model
+		// line evaluates the REGENERATED expression of GlobalID at the given draw and is judged
+		// by the rule alone (see the comparison loop).
+		return "unobservable"
+	case "valid", "rule":
+		// "rule" asks the Lean side for its executable component RULE (not the regex) — the
+		// real ValidURI must agree with it (theorem validURI_iff_rule, tested on the real code).
 		if len(f) != 4 {
 			return bad
 		}
@@ -287,10 +294,11 @@ func deltaIDObserved() uint64 {
 // case generation
 
 type gen struct {
-	rng   *hcommon.RNG
-	lines []string
-	seen  map[string]struct{}
-	sum   *hcommon.Summary
+	withRule bool // also emit "rule" lines (Lean's executable rule vs the real ValidURI)
+	rng      *hcommon.RNG
+	lines    []string
+	seen     map[string]struct{}
+	sum      *hcommon.Summary
 }
 
 func (g *gen) add(line string) {
@@ -316,6 +324,10 @@ func (g *gen) addValid(u []byte, allMatches bool) {
 	for _, m := range ms {
 		g.add("valid 0 " + hx([]byte(m)) + " " + hx(u))
 		g.add("valid 1 " + hx([]byte(m)) + " " + hx(u))
+		if g.withRule {
+			g.add("rule 0 " + hx([]byte(m)) + " " + hx(u))
+			g.add("rule 1 " + hx([]byte(m)) + " " + hx(u))
+		}
 	}
 }
 
@@ -443,7 +455,11 @@ func joinIDs(ids []uint64) string {
 
 func (g *gen) build(tier string, n, maxlen, wildlen int) {
 	// --- URI validation: exhaustive small scope -------------------------------
+	g.withRule = true
+	exhaustive(uriAlphabet, maxlen-1, func(b []byte) { g.addValid(b, false) })
+	g.withRule = false
 	exhaustive(uriAlphabet, maxlen, func(b []byte) { g.addValid(b, false) })
+	g.withRule = true
 	// all weird match strings on a smaller exhaustive scope
 	exhaustive(uriAlphabet, 2, func(b []byte) { g.addValid(b, true) })
 	// each single byte 0..255 alone and inside a component
@@ -491,6 +507,9 @@ func (g *gen) build(tier string, n, maxlen, wildlen int) {
 		}
 	}
 	g.add("consts")
+	for _, r := range []uint64{0, 1, 2, maxID / 2, maxID - 2, maxID - 1} {
+		g.add("global " + strconv.FormatUint(r, 10))
+	}
 	g.add("nextn 0 1")
 	g.add("nextn 0 1000")
 	if pokeOK {
@@ -511,7 +530,11 @@ func (g *gen) build(tier string, n, maxlen, wildlen int) {
 			if r.Chance(1, 40) {
 				m = string(g.randomURI())
 			}
-			g.add("valid " + bit(r.Chance(1, 2)) + " " + hx([]byte(m)) + " " + hx(u))
+			st := bit(r.Chance(1, 2))
+			g.add("valid " + st + " " + hx([]byte(m)) + " " + hx(u))
+			if r.Chance(1, 3) {
+				g.add("rule " + st + " " + hx([]byte(m)) + " " + hx(u))
+			}
 		case 4: // prefix
 			u := g.randomURI()
 			var p []byte
@@ -618,7 +641,7 @@ func features(line string, sum *hcommon.Summary) {
 func trivial(line string) bool {
 	f := strings.Split(line, " ")
 	switch f[0] {
-	case "valid":
+	case "valid", "rule":
 		return f[3] == "-"
 	case "prefix", "wild":
 		return f[1] == "-" && f[2] == "-"
@@ -638,7 +661,7 @@ func answerClass(line, ans string) string {
 	case strings.HasPrefix(ans, "panic"):
 		return kind + ".panic"
 	}
-	if kind == "valid" || kind == "prefix" || kind == "wild" {
+	if kind == "valid" || kind == "rule" || kind == "prefix" || kind == "wild" {
 		return kind + ".other"
 	}
 	if kind == "asid" {
@@ -668,13 +691,14 @@ func runDriver(lines []string) ([]string, error) {
 	return out, nil
 }
 
-// minimise shrinks the byte-string arguments of a disagreeing valid / prefix /
-// wild line while impl and model still differ.
+// minimise shrinks the byte-string arguments of a failing valid / prefix / wild
+// line while it still fails (impl and model differ, or the implementation's
+// answer violates the rule).
 func minimise(line string) string {
 	f := strings.Split(line, " ")
 	var idx []int
 	switch f[0] {
-	case "valid":
+	case "valid", "rule":
 		idx = []int{3}
 	case "prefix", "wild":
 		idx = []int{1, 2}
@@ -682,8 +706,12 @@ func minimise(line string) string {
 		return line
 	}
 	differs := func(l string) bool {
+		impl := evalImpl(l)
+		if ok, _ := specCheck(l, impl); !ok {
+			return true
+		}
 		res, err := hcommon.RunDriver("uriid", []string{l})
-		return err == nil && len(res) == 1 && res[0] != evalImpl(l)
+		return err == nil && len(res) == 1 && res[0] != impl
 	}
 	for changed := true; changed; {
 		changed = false
@@ -721,12 +749,29 @@ func inputLine(in any) (string, bool) {
 	return s, ok
 }
 
+// readable renders a request line with its byte strings quoted.
+func readable(line string) string {
+	f := strings.Split(line, " ")
+	q := func(h string) string { b, _ := unhx(h); return strconv.QuoteToASCII(string(b)) }
+	switch {
+	case f[0] == "valid" && len(f) == 4:
+		return fmt.Sprintf("ValidURI(strict=%v, match=%s) on URI %s", f[1] == "1", q(f[2]), q(f[3]))
+	case f[0] == "rule" && len(f) == 4:
+		return fmt.Sprintf("ValidURI(strict=%v, match=%s) on URI %s [model side: Lean's component rule]", f[1] == "1", q(f[2]), q(f[3]))
+	case f[0] == "prefix" && len(f) == 3:
+		return fmt.Sprintf("URI %s PrefixMatch(%s)", q(f[1]), q(f[2]))
+	case f[0] == "wild" && len(f) == 3:
+		return fmt.Sprintf("URI %s WildcardMatch(%s)", q(f[1]), q(f[2]))
+	}
+	return line
+}
+
 func describe(line string) map[string]any {
 	m := map[string]any{"line": line}
 	f := strings.Split(line, " ")
 	q := func(h string) string { b, _ := unhx(h); return strconv.QuoteToASCII(string(b)) }
 	switch f[0] {
-	case "valid":
+	case "valid", "rule":
 		if len(f) == 4 {
 			m["strict"], m["match"], m["uri"] = f[1] == "1", q(f[2]), q(f[3])
 		}
@@ -807,6 +852,8 @@ func main() {
 	}
 
 	distinct := 0
+	reported := map[string]bool{}
+	minimised := 0
 	for i, line := range g.lines {
 		impl := evalImpl(line)
 		sum.Evaluations++
@@ -820,6 +867,16 @@ func main() {
 			d["impl"], d["model"] = impl, model[i]
 			sum.AddSample(d, 8)
 		}
+		if strings.HasPrefix(line, "global ") {
+			// no observable implementation answer: judge the regenerated expression by the rule
+			if ok, why := specGlobal(line, model[i]); !ok {
+				sum.Disagreements = append(sum.Disagreements, hcommon.Disagreement{
+					Input: describe(line), Impl: "GlobalID's source expression, regenerated: " + model[i], Model: model[i], SpecViolation: true,
+					Detail: "GlobalID: for the draw r=" + strings.TrimPrefix(line, "global ") + " of secureInt63n(MaxID) the expression in the source yields " + model[i] + "; " + why,
+				})
+			}
+			continue
+		}
 		specOK, why := specCheck(line, impl)
 		if impl == model[i] && specOK {
 			continue
@@ -829,9 +886,15 @@ func main() {
 			continue
 		}
 		l := line
-		if impl != model[i] && len(sum.Disagreements) < 5 {
+		if minimised < 8 {
+			minimised++
 			l = minimise(line)
 		}
+		if reported[l] {
+			sum.Count("disagreements.same_minimised_input")
+			continue
+		}
+		reported[l] = true
 		impl2 := evalImpl(l)
 		m2 := model[i]
 		if l != line {
@@ -840,7 +903,7 @@ func main() {
 			}
 		}
 		specOK, why = specCheck(l, impl2)
-		detail := fmt.Sprintf("%s: implementation answers %q, Lean model answers %q", l, impl2, m2)
+		detail := fmt.Sprintf("%s: implementation answers %q, Lean model answers %q", readable(l), impl2, m2)
 		if !specOK {
 			detail += "; the implementation's answer violates the property's rule: " + why
 		} else if impl2 != m2 {
